@@ -12,8 +12,10 @@ import (
 	"flag"
 	"fmt"
 	"math/big"
+	"runtime"
 	"strconv"
 	"strings"
+	"sync"
 
 	"go.starlark.net/starlark"
 
@@ -418,7 +420,7 @@ func runUnpack(thread *starlark.Thread, ps []uParam, args []uArg, kw []uKw) uOut
 	for _, e := range kw {
 		kt = append(kt, starlark.Tuple{starlark.String(e.K), mkArg(e.A)})
 	}
-	_, err := starlark.Call(thread, b, at, kt)
+	_, err := safeCall(thread, b, at, kt)
 	out := uOutcome{Targets: make([]*uArg, len(ps))}
 	if err != nil {
 		out.Err, out.I = classifyUnpack(err, ps)
@@ -447,7 +449,7 @@ func runPositional(thread *starlark.Thread, min int, kinds []string, args []uArg
 	for i := 0; i < nkw; i++ {
 		kt = append(kt, starlark.Tuple{starlark.String("k"), starlark.None})
 	}
-	_, err := starlark.Call(thread, b, at, kt)
+	_, err := safeCall(thread, b, at, kt)
 	out := uOutcome{Targets: make([]*uArg, len(kinds))}
 	if err != nil {
 		out.Err, out.I = classifyUnpack(err, nil)
@@ -509,7 +511,7 @@ func unpackMain(argv []string) {
 	seed := fs.Uint64("seed", 1, "seed")
 	frac := fs.Float64("frac", 1.0, "fraction of parameter lists executed")
 	ncoq := fs.Int("coq", 2000, "cases printed for Coq")
-	full := fs.Bool("full", false, "all 10 target kinds (default: 6)")
+	full := fs.Bool("full", false, "all 10 target kinds at every position (default: at the first position, 6 at the others)")
 	fs.Parse(argv)
 	r := hx.NewRand(*seed)
 	kinds := []string{"value", "int", "string", "bool", "list", "int8"}
@@ -521,121 +523,78 @@ func unpackMain(argv []string) {
 	// all parameter lists
 	var lists [][]uParam
 	var rec func(cur []uParam)
+	allKinds := []string{"value", "int", "string", "bool", "list", "int8", "float", "dict", "callable", "iterable"}
 	rec = func(cur []uParam) {
 		lists = append(lists, append([]uParam{}, cur...))
 		if len(cur) == 3 {
 			return
 		}
+		ks := kinds
+		if len(cur) == 0 { // the first parameter ranges over every target kind
+			ks = allKinds
+		}
 		for _, m := range markers {
-			for _, k := range kinds {
+			for _, k := range ks {
 				rec(append(cur, uParam{names[len(cur)], m, k}))
 			}
 		}
 	}
 	rec(nil)
-	thread := &starlark.Thread{Name: "c08u"}
 	total, mism := 0, 0
 	dist := map[string]int{}
 	var printed []*uCase
 	thr := uint64(*frac * float64(1<<32))
 	// expected number of cases, to size the Coq sample
-	perList := 5 * 16 * 5 * 3
+	perList := 5 * 16 * 5 * 2
 	expect := float64(len(lists)) * *frac * float64(perList) / 2
 	pcoq := float64(*ncoq) / (expect + 1)
-	mismKeys := map[string]int{}
-	for li, ps := range lists {
+	results := make([]*listRes, len(lists))
+	var wg sync.WaitGroup
+	jobs := make(chan int)
+	nw := runtime.GOMAXPROCS(0)
+	if nw > 8 {
+		nw = 8
+	}
+	for w := 0; w < nw; w++ {
+		wg.Add(1)
+		go func() {
+			defer wg.Done()
+			thread := &starlark.Thread{Name: "c08u"}
+			for li := range jobs {
+				results[li] = runList(thread, lists[li], hx.NewRand(mix(*seed, uint64(li), 77)), pcoq)
+			}
+		}()
+	}
+	for li := range lists {
 		if *frac < 1 && mix(*seed, uint64(li))&0xffffffff >= thr {
 			continue
 		}
-		uni := []string{}
-		for _, p := range ps {
-			uni = append(uni, p.Name)
+		jobs <- li
+	}
+	close(jobs)
+	wg.Wait()
+	mismKeys := map[string]int{}
+	for _, lr := range results {
+		if lr == nil {
+			continue
 		}
-		uni = append(uni, "w")
-		for npos := 0; npos <= 4; npos++ {
-			for mask := 0; mask < 1<<len(uni); mask++ {
-				// duplicates: none, a declared name again, the undeclared name again
-				dups := []string{""}
-				if len(ps) > 0 {
-					dups = append(dups, ps[0].Name, ps[len(ps)-1].Name)
-				}
-				dups = append(dups, "w")
-				for _, dup := range dups {
-					for rep := 0; rep < 3; rep++ {
-						id := 1
-						var args []uArg
-						for i := 0; i < npos; i++ {
-							k := ""
-							if i < len(ps) {
-								k = ps[i].Kind
-							}
-							args = append(args, pickArg(r, k, id))
-							id++
-						}
-						var kw []uKw
-						kindOf := func(n string) string {
-							for _, p := range ps {
-								if p.Name == n {
-									return p.Kind
-								}
-							}
-							return ""
-						}
-						for i, n := range uni {
-							if mask&(1<<i) != 0 {
-								kw = append(kw, uKw{n, pickArg(r, kindOf(n), id)})
-								id++
-							}
-						}
-						if rep == 1 && len(kw) > 1 { // other order
-							kw[0], kw[len(kw)-1] = kw[len(kw)-1], kw[0]
-						}
-						if dup != "" {
-							kw = append(kw, uKw{dup, pickArg(r, kindOf(dup), id)})
-							id++
-						}
-						obs := runUnpack(thread, ps, args, kw)
-						spec := specUnpack(ps, args, kw)
-						total++
-						cls := obs.Err
-						if cls == "" {
-							cls = "ok"
-						} else if strings.HasPrefix(cls, "other:") {
-							cls = "other"
-						}
-						dist["UnpackArgs:"+cls]++
-						bad := !sameU(obs, spec)
-						w := 1.0
-						if cls == "ok" || cls == "badarg" || cls == "missing" {
-							w = 4
-						}
-						coq := float64(r.Uint64()>>11)/float64(1<<53) < pcoq*w
-						if bad {
-							mism++
-							key := obs.Err + "/" + spec.Err
-							mismKeys[key]++
-							if mismKeys[key] > 3 {
-								continue
-							}
-						}
-						if bad || coq {
-							c := &uCase{Kind: "ucase", Args: args, Obs: obs, Spec: spec, Bad: bad, Coq: true, Kw: [][2]any{}}
-							if c.Args == nil {
-								c.Args = []uArg{}
-							}
-							for _, p := range ps {
-								c.Ps = append(c.Ps, [3]string{p.Name, p.Marker, p.Kind})
-							}
-							for _, e := range kw {
-								c.Kw = append(c.Kw, [2]any{e.K, e.A})
-							}
-							printed = append(printed, c)
-						}
-					}
+		total += lr.total
+		mism += lr.mism
+		for k, v := range lr.dist {
+			dist[k] += v
+		}
+		for _, c := range lr.printed {
+			if c.Bad {
+				key := c.Obs.Err + "/" + c.Spec.Err
+				mismKeys[key]++
+				if mismKeys[key] > 3 {
+					continue
 				}
 			}
+			printed = append(printed, c)
 		}
 	}
+	thread := &starlark.Thread{Name: "c08u"}
 	// UnpackPositionalArgs: kinds lists of length 0..3, min 0..len, 0..4 arguments, with/without kwargs
 	var klists [][]string
 	var krec func(cur []string)
@@ -696,4 +655,108 @@ func unpackMain(argv []string) {
 	}
 	hx.Emit(map[string]any{"kind": "usummary", "lists": len(lists), "cases": total, "mismatches": mism, "dist": dist, "frac": *frac, "kinds": kinds})
 	hx.Flush()
+}
+
+type listRes struct {
+	total, mism int
+	dist        map[string]int
+	printed     []*uCase
+}
+
+func runList(thread *starlark.Thread, ps []uParam, r *hx.Rand, pcoq float64) *listRes {
+	res := &listRes{dist: map[string]int{}}
+	total, mism := 0, 0
+	dist := res.dist
+	var printed []*uCase
+	mismKeys := map[string]int{}
+	uni := []string{}
+	for _, p := range ps {
+		uni = append(uni, p.Name)
+	}
+	uni = append(uni, "w")
+	for npos := 0; npos <= 4; npos++ {
+		for mask := 0; mask < 1<<len(uni); mask++ {
+			// duplicates: none, a declared name again, the undeclared name again
+			dups := []string{""}
+			if len(ps) > 0 {
+				dups = append(dups, ps[0].Name, ps[len(ps)-1].Name)
+			}
+			dups = append(dups, "w")
+			for _, dup := range dups {
+				for rep := 0; rep < 2; rep++ {
+					id := 1
+					var args []uArg
+					for i := 0; i < npos; i++ {
+						k := ""
+						if i < len(ps) {
+							k = ps[i].Kind
+						}
+						args = append(args, pickArg(r, k, id))
+						id++
+					}
+					var kw []uKw
+					kindOf := func(n string) string {
+						for _, p := range ps {
+							if p.Name == n {
+								return p.Kind
+							}
+						}
+						return ""
+					}
+					for i, n := range uni {
+						if mask&(1<<i) != 0 {
+							kw = append(kw, uKw{n, pickArg(r, kindOf(n), id)})
+							id++
+						}
+					}
+					if rep == 1 && len(kw) > 1 { // other order
+						kw[0], kw[len(kw)-1] = kw[len(kw)-1], kw[0]
+					}
+					if dup != "" {
+						kw = append(kw, uKw{dup, pickArg(r, kindOf(dup), id)})
+						id++
+					}
+					obs := runUnpack(thread, ps, args, kw)
+					spec := specUnpack(ps, args, kw)
+					total++
+					cls := obs.Err
+					if cls == "" {
+						cls = "ok"
+					} else if strings.HasPrefix(cls, "other:") {
+						cls = "other"
+					}
+					dist["UnpackArgs:"+cls]++
+					bad := !sameU(obs, spec)
+					w := 1.0
+					if cls == "ok" || cls == "badarg" || cls == "missing" {
+						w = 4
+					}
+					coq := float64(r.Uint64()>>11)/float64(1<<53) < pcoq*w
+					if bad {
+						mism++
+						key := obs.Err + "/" + spec.Err
+						mismKeys[key]++
+						if mismKeys[key] > 3 {
+							continue
+						}
+					}
+					if bad || coq {
+						c := &uCase{Kind: "ucase", Args: args, Obs: obs, Spec: spec, Bad: bad, Coq: true, Kw: [][2]any{}}
+						if c.Args == nil {
+							c.Args = []uArg{}
+						}
+						for _, p := range ps {
+							c.Ps = append(c.Ps, [3]string{p.Name, p.Marker, p.Kind})
+						}
+						for _, e := range kw {
+							c.Kw = append(c.Kw, [2]any{e.K, e.A})
+						}
+						printed = append(printed, c)
+					}
+				}
+			}
+		}
+	}
+	res.total, res.mism, res.printed = total, mism, printed
+	return res
 }
